@@ -12,6 +12,7 @@ def connect():
     import duckdb
     con = duckdb.connect(":memory:")
     con.execute("SET threads=1")
+    con.execute("SET disabled_optimizers='statistics_propagation'")  # DuckDB 1.3.2 mis-sorts NULL keys of DATE_TRUNC over CTAS tables with it
     con.execute("SET TimeZone='UTC'")
     return con
 
